@@ -158,7 +158,7 @@ Section Sound.
   Lemma finish_sound usable d0 L d :
     dinv usable d0 L d -> disk_sound usable d0 L (fst (finish_disk clearpast inf d)).
   Proof.
-    intro I. destruct I. unfold finish_disk.
+    intro I. destruct I as [di_origin0 di_present0 di_ins0 di_seen0 di_noinode0 di_links0 di_link_ins0 di_sym0 di_dirs0 di_dir_ins0 di_dir_seen0]. unfold finish_disk.
     set (d1 := remove_missing clearpast d).
     set (kept := map sf_f (sd_files d1)).
     set (occ := flat_map (fun f => map fb_pos (cf_blocks f)) kept).
@@ -172,10 +172,10 @@ Section Sound.
     assert (Hadd1 : forall f', In f' added -> exists fk, In fk (sd_ins d) /\ same_attrs (fst fk) f' /\ no_blk f').
     { intros f' H. pose proof (alloc_files_in occ (map fst (sort_ins (sd_ins d1))) 0 (sd_deleted d1) f') as A.
       rewrite Ea in A. destruct (A H) as [f [Hf B]]. apply in_map_iff in Hf. destruct Hf as [fk [E Hfk]].
-      apply sort_ins_in in Hfk. exists fk. subst f. split; [exact Hfk | exact B]. }
+      apply (proj1 (sort_ins_in _ _)) in Hfk. exists fk. subst f. split; [exact Hfk | exact B]. }
     assert (Hadd2 : forall fk, In fk (sd_ins d) -> exists f', In f' added /\ same_attrs (fst fk) f').
     { intros fk H. pose proof (alloc_files_all occ (map fst (sort_ins (sd_ins d1))) 0 (sd_deleted d1) (fst fk)) as A.
-      rewrite Ea in A. apply A. apply in_map. apply sort_ins_in. exact H. }
+      rewrite Ea in A. apply A. apply in_map. apply (proj2 (sort_ins_in _ _)). exact H. }
     assert (Hlk : forall l, In l (map fst (sd_links d1) ++ sd_link_ins d1) <-> In (l, true) (sd_links d) \/ In l (sd_link_ins d)).
     { intro l. rewrite in_app_iff. unfold d1, remove_missing; simpl. rewrite in_map_iff. split.
       - intros [[lp [E H]] | H]; [|auto]. apply filter_In in H. destruct H as [H Hp]. left. destruct lp as [l' p]; simpl in *. subst. exact H.
@@ -186,19 +186,19 @@ Section Sound.
       - intros [H|H]; [|auto]. left. exists (n, true). split; [reflexivity|]. apply filter_In. auto. }
     constructor; simpl.
     - intros f Hf. apply in_app_iff in Hf. destruct Hf as [Hf|Hf].
-      + apply Hkept in Hf. destruct Hf as [sf [Hsf [Hp E]]]. subst f. destruct (di_present0 sf Hsf Hp) as [_ H]. exact H.
+      + apply (proj1 (Hkept f)) in Hf. destruct Hf as [sf [Hsf [Hp E]]]. subst f. destruct (di_present0 sf Hsf Hp) as [_ H]. exact H.
       + destruct (Hadd1 f Hf) as [fk [Hfk [SA _]]]. destruct (di_ins0 fk Hfk) as [[e [He [Hk Hm]]] _].
         exists e. repeat split; auto; eapply ematch_attrs; eauto.
     - intros e He Hk. destruct (di_seen0 e He Hk) as [[sf [Hsf [Hp Hm]]] | [[fk [Hfk Hm]] | [l [Hl Hm]]]].
-      + left. exists (sf_f sf). split; [|exact Hm]. apply in_app_iff. left. apply Hkept. eauto.
+      + left. exists (sf_f sf). split; [|exact Hm]. apply in_app_iff. left. apply (proj2 (Hkept _)). eauto.
       + left. destruct (Hadd2 fk Hfk) as [f' [Hf' SA]]. exists f'. split; [apply in_app_iff; auto | eapply ematch_attrs; eauto].
-      + right. exists l. split; [apply Hlk; exact Hl | exact Hm].
-    - intros l Hl. apply Hlk in Hl. destruct Hl as [Hl|Hl]; [apply (di_links0 (l, true) Hl eq_refl) | apply di_link_ins0; exact Hl].
-    - intros e He Hk. destruct (di_sym0 e He Hk) as [l [Hl Hm]]. exists l. split; [apply Hlk; exact Hl | exact Hm].
-    - intros n Hn. apply Hdr in Hn. destruct Hn as [Hn|Hn]; [apply (di_dirs0 (n, true) Hn eq_refl) | apply di_dir_ins0; exact Hn].
-    - intros e He Hk. apply Hdr. apply di_dir_seen0; auto.
+      + right. exists l. split; [apply (proj2 (Hlk l)); exact Hl | exact Hm].
+    - intros l Hl. apply (proj1 (Hlk l)) in Hl. destruct Hl as [Hl|Hl]; [apply (di_links0 (l, true) Hl eq_refl) | apply di_link_ins0; exact Hl].
+    - intros e He Hk. destruct (di_sym0 e He Hk) as [l [Hl Hm]]. exists l. split; [apply (proj2 (Hlk l)); exact Hl | exact Hm].
+    - intros n Hn. apply (proj1 (Hdr n)) in Hn. destruct Hn as [Hn|Hn]; [apply (di_dirs0 (n, true) Hn eq_refl) | apply di_dir_ins0; exact Hn].
+    - intros e He Hk. apply (proj2 (Hdr _)). apply di_dir_seen0; auto.
     - intros f Hf [b [Hb Hs]]. apply in_app_iff in Hf. destruct Hf as [Hf|Hf].
-      + apply Hkept in Hf. destruct Hf as [sf [Hsf [Hp E]]]. subst f.
+      + apply (proj1 (Hkept f)) in Hf. destruct Hf as [sf [Hsf [Hp E]]]. subst f.
         destruct (di_origin0 sf Hsf) as [f0 [Hf0 O]]. unfold origin in O. rewrite Hp in O.
         destruct O as [O1 [O2 [O3 [O4 O5]]]]. exists f0. repeat split; auto.
       + destruct (Hadd1 f Hf) as [fk [_ [_ NB]]]. exfalso. exact (NB b Hb Hs).
@@ -216,10 +216,7 @@ Section Sound.
     nth k (map (fun o => match o with Some x => Some (g x) | None => None end) l) None
     = match nth k l None with Some x => Some (g x) | None => None end.
   Proof.
-    destruct (Nat.lt_ge_cases k (length l)) as [H|H].
-    - rewrite (nth_indep _ None ((fun o => match o with Some x => Some (g x) | None => None end) None)) by (rewrite map_length; exact H).
-      rewrite map_nth. reflexivity.
-    - rewrite !nth_overflow; [reflexivity | exact H | rewrite map_length; exact H].
+    revert k. induction l as [|x t IH]; intro k; simpl; [destruct k; reflexivity|]. destruct k; [reflexivity | apply IH].
   Qed.
 
   Theorem scan_disk_sound usable c listing o :
@@ -244,7 +241,7 @@ Section Sound.
     - exact Hw0.
     - apply dinv_init.
     - exists (fst (finish_disk clearpast inf d')). split.
-      + rewrite map_map. rewrite (nth_map_opt (fun d => fst (finish_disk clearpast inf d))). rewrite A. reflexivity.
+      + rewrite (nth_map_opt fst). rewrite (nth_map_opt (finish_disk clearpast inf)). rewrite A. reflexivity.
       + apply finish_sound. exact B.
   Qed.
 End Sound.
